@@ -86,6 +86,9 @@ fn wide(buf: &mut [u8; 16], lead: bool, t_max: usize) -> &str {
         }
     }
     let start = if lead { start - 1 } else { start };
+    if kani::any() {
+        return ""; // the empty input
+    }
     unsafe { core::str::from_utf8_unchecked(&buf[start..8 + t]) }
 }
 
@@ -215,79 +218,268 @@ contract_eq!(#[kani::unwind(9)] ob_identifier, identifier, spec_identifier, same
 contract_eq!(#[kani::unwind(9)] ob_identifier_wide, identifier, spec_identifier, same, wide1, W_L1);
 contract_eq!(#[kani::unwind(9)] ob_integer, integer, spec_integer, same, ascii, A_INT);
 
-// ---- level 2 ---------------------------------------------------------------------------------------
+// ---- level 2 leaves on symbolic strings -------------------------------------------------------------
 contract_eq!(#[kani::unwind(9)] ob_align, align, spec_align, same, wide0, 1);
 contract_eq!(#[kani::unwind(9)] ob_sign, sign, spec_sign, same, wide0, 1);
 contract_eq!(
     #[kani::unwind(13)]
     #[kani::stub(super::whitespaces, spec_ws_opt)]
     ob_type, type_, spec_type, same, ascii, A_TYPE);
+
+// ---- callee abstraction: deterministic uninterpreted functions -------------------------------------------
+// For the composite functions the callees are NOT executed. Each callee (real AND its spec twin) is replaced
+// by one and the same uninterpreted function: for every distinct input (identified by its length, all inputs of
+// one harness being suffixes of one string) it returns an arbitrary but fixed result `None | Some((suffix, value))`.
+// The obligation `f_real[UF] == f_spec[UF]` then holds for EVERY behaviour of the callees, in particular for the
+// real ones, which are proved equal to their specs by their own obligations: that is the modular step.
+const K: usize = 6;
+#[derive(Clone, Copy)]
+struct Uf<T: Copy> {
+    n: usize,
+    key: [usize; K],
+    res: [Option<(usize, T)>; K],
+}
+impl<T: Copy> Uf<T> {
+    const NEW: Self = Uf { n: 0, key: [usize::MAX; K], res: [None; K] };
+}
+macro_rules! probe {
+    ($m:ident, $i:expr, $len:expr) => {
+        if $i < $m.n && $m.key[$i] == $len {
+            return $m.res[$i];
+        }
+    };
+}
+fn uf_call<T: Copy>(m: &mut Uf<T>, input: &str, min: usize, gen: fn(&str, usize) -> T) -> Option<(usize, T)> {
+    let len = input.len();
+    probe!(m, 0, len);
+    probe!(m, 1, len);
+    probe!(m, 2, len);
+    probe!(m, 3, len);
+    probe!(m, 4, len);
+    probe!(m, 5, len);
+    let r = if kani::any() {
+        let k: usize = kani::any();
+        kani::assume(k >= min && k <= input.len() && input.is_char_boundary(k));
+        Some((k, gen(input, k)))
+    } else {
+        None
+    };
+    kani::assume(m.n < K);
+    m.key[m.n] = input.len();
+    m.res[m.n] = r;
+    m.n += 1;
+    r
+}
+fn st(s: &str) -> &'static str {
+    unsafe { core::mem::transmute::<&str, &'static str>(s) }
+}
+fn nd_prefix(input: &str, k: usize) -> &'static str {
+    let j: usize = kani::any();
+    kani::assume(j <= k && input.is_char_boundary(j));
+    st(&input[..j])
+}
+fn nd_usize(_: &str, _: usize) -> usize {
+    kani::any()
+}
+fn nd_unit(_: &str, _: usize) {}
+fn nd_argument(input: &str, k: usize) -> Argument<'static> {
+    if kani::any() {
+        Argument::Integer(kani::any())
+    } else {
+        Argument::Identifier(nd_prefix(input, k))
+    }
+}
+fn nd_count(input: &str, k: usize) -> Count<'static> {
+    if kani::any() {
+        Count::Integer(kani::any())
+    } else {
+        Count::Parameter(nd_argument(input, k))
+    }
+}
+fn nd_precision(input: &str, k: usize) -> Precision<'static> {
+    if kani::any() {
+        Precision::Star
+    } else {
+        Precision::Count(nd_count(input, k))
+    }
+}
+fn nd_align(_: &str, _: usize) -> Align {
+    let x: u8 = kani::any();
+    match x % 3 {
+        0 => Align::Left,
+        1 => Align::Center,
+        _ => Align::Right,
+    }
+}
+fn nd_sign(_: &str, _: usize) -> Sign {
+    if kani::any() {
+        Sign::Plus
+    } else {
+        Sign::Minus
+    }
+}
+fn nd_type(_: &str, _: usize) -> Type {
+    let x: u8 = kani::any();
+    match x % 11 {
+        0 => Type::Display,
+        1 => Type::Debug,
+        2 => Type::LowerDebug,
+        3 => Type::UpperDebug,
+        4 => Type::Octal,
+        5 => Type::LowerHex,
+        6 => Type::UpperHex,
+        7 => Type::Pointer,
+        8 => Type::Binary,
+        9 => Type::LowerExp,
+        _ => Type::UpperExp,
+    }
+}
+fn nd_format_spec(input: &str, k: usize) -> FormatSpec<'static> {
+    FormatSpec {
+        align: if kani::any() { Some((if kani::any() { Some(kani::any()) } else { None }, nd_align(input, k))) } else { None },
+        sign: if kani::any() { Some(nd_sign(input, k)) } else { None },
+        alternate: if kani::any() { Some(Alternate) } else { None },
+        zero_padding: if kani::any() { Some(ZeroPadding) } else { None },
+        width: if kani::any() { Some(nd_count(input, k)) } else { None },
+        precision: if kani::any() { Some(nd_precision(input, k)) } else { None },
+        ty: nd_type(input, k),
+    }
+}
+fn nd_format(input: &str, k: usize) -> Format<'static> {
+    Format {
+        arg: if kani::any() { Some(nd_argument(input, k)) } else { None },
+        spec: if kani::any() { Some(nd_format_spec(input, k)) } else { None },
+    }
+}
+fn nd_maybe_format(input: &str, k: usize) -> Option<Format<'static>> {
+    if kani::any() {
+        Some(nd_format(input, k))
+    } else {
+        None
+    }
+}
+
+macro_rules! uf_fn {
+    ($name:ident, $memo:ident, $t:ty, $out:ty, $gen:expr, $min:expr) => {
+        static mut $memo: Uf<$t> = Uf::NEW;
+        pub(crate) fn $name(input: &str) -> Option<(&str, $out)> {
+            #[allow(static_mut_refs)]
+            let m = unsafe { &mut $memo };
+            uf_call(m, input, $min, $gen).map(|(k, v)| (&input[k..], v))
+        }
+    };
+}
+uf_fn!(uf_integer, M_INTEGER, usize, usize, nd_usize, 1);
+uf_fn!(uf_argument, M_ARGUMENT, Argument<'static>, Argument<'_>, nd_argument, 1);
+uf_fn!(uf_parameter, M_PARAMETER, Argument<'static>, Argument<'_>, nd_argument, 1);
+uf_fn!(uf_count, M_COUNT, Count<'static>, Count<'_>, nd_count, 1);
+uf_fn!(uf_precision, M_PRECISION, Precision<'static>, Precision<'_>, nd_precision, 1);
+uf_fn!(uf_align, M_ALIGN, Align, Align, nd_align, 1);
+uf_fn!(uf_sign, M_SIGN, Sign, Sign, nd_sign, 1);
+uf_fn!(uf_type, M_TYPE, Type, Type, nd_type, 0);
+uf_fn!(uf_format_spec, M_FORMAT_SPEC, FormatSpec<'static>, FormatSpec<'_>, nd_format_spec, 0);
+uf_fn!(uf_format, M_FORMAT, Format<'static>, Format<'_>, nd_format, 2);
+uf_fn!(uf_maybe_format, M_MAYBE_FORMAT, Option<Format<'static>>, Option<Format<'_>>, nd_maybe_format, 1);
+static mut M_IDENTIFIER: Uf<()> = Uf::NEW;
+pub(crate) fn uf_identifier(input: &str) -> Option<(&str, &str)> {
+    // like the real one, the identifier IS the consumed text
+    #[allow(static_mut_refs)]
+    let m = unsafe { &mut M_IDENTIFIER };
+    uf_call(m, input, 1, nd_unit).map(|(k, _)| (&input[k..], &input[..k]))
+}
+static mut M_TEXT: Uf<()> = Uf::NEW;
+pub(crate) fn uf_text(input: &str) -> Option<(&str, &str)> {
+    #[allow(static_mut_refs)]
+    let m = unsafe { &mut M_TEXT };
+    uf_call(m, input, 1, nd_unit).map(|(k, _)| (&input[k..], &input[..k]))
+}
+static mut M_WS: Uf<()> = Uf::NEW;
+pub(crate) fn uf_whitespaces(input: &str) -> Option<&str> {
+    // never fails (contract of `whitespaces`, proved by ob_whitespaces)
+    #[allow(static_mut_refs)]
+    let m = unsafe { &mut M_WS };
+    match uf_call(m, input, 0, nd_unit) {
+        Some((k, _)) => Some(&input[k..]),
+        None => Some(input),
+    }
+}
+/// spec twin of `whitespaces` has the signature `&str -> &str`
+pub(crate) fn uf_ws_plain(input: &str) -> &str {
+    uf_whitespaces(input).unwrap()
+}
+
+// ---- level 2: composites over abstract callees ---------------------------------------------------------
 contract_eq!(
-    #[kani::unwind(9)]
-    #[kani::stub(super::identifier, spec_identifier)]
-    #[kani::stub(super::integer, spec_integer)]
-    ob_argument, argument, spec_argument, same, ascii, A_L2);
+    #[kani::unwind(7)]
+    #[kani::stub(super::identifier, uf_identifier)]
+    #[kani::stub(super::spec::spec_identifier, uf_identifier)]
+    #[kani::stub(super::integer, uf_integer)]
+    #[kani::stub(super::spec::spec_integer, uf_integer)]
+    ob_argument, argument, spec_argument, same, ascii, A_UF);
 contract_eq!(
-    #[kani::unwind(9)]
-    #[kani::stub(super::argument, spec_argument)]
-    ob_parameter, parameter, spec_parameter, same, ascii, A_L2);
+    #[kani::unwind(7)]
+    #[kani::stub(super::argument, uf_argument)]
+    #[kani::stub(super::spec::spec_argument, uf_argument)]
+    ob_parameter, parameter, spec_parameter, same, ascii, A_UF);
 contract_eq!(
-    #[kani::unwind(9)]
-    #[kani::stub(super::parameter, spec_parameter)]
-    #[kani::stub(super::integer, spec_integer)]
-    ob_count, count, spec_count, same, ascii, A_L2);
+    #[kani::unwind(7)]
+    #[kani::stub(super::parameter, uf_parameter)]
+    #[kani::stub(super::spec::spec_parameter, uf_parameter)]
+    #[kani::stub(super::integer, uf_integer)]
+    #[kani::stub(super::spec::spec_integer, uf_integer)]
+    ob_count, count, spec_count, same, ascii, A_UF);
 contract_eq!(
-    #[kani::unwind(9)]
-    #[kani::stub(super::count, spec_count)]
-    ob_precision, precision, spec_precision, same, ascii, A_L2);
+    #[kani::unwind(7)]
+    #[kani::stub(super::count, uf_count)]
+    #[kani::stub(super::spec::spec_count, uf_count)]
+    ob_precision, precision, spec_precision, same, ascii, A_UF);
 
 // ---- level 3 ---------------------------------------------------------------------------------------
 contract_eq!(
-    #[kani::unwind(9)]
-    #[kani::stub(super::align, spec_align)]
-    #[kani::stub(super::sign, spec_sign)]
-    #[kani::stub(super::count, spec_count)]
-    #[kani::stub(super::precision, spec_precision)]
-    #[kani::stub(super::type_, spec_type)]
-    ob_format_spec, format_spec, spec_format_spec, same, ascii, A_SPEC);
+    #[kani::unwind(7)]
+    #[kani::stub(super::align, uf_align)]
+    #[kani::stub(super::spec::spec_align, uf_align)]
+    #[kani::stub(super::sign, uf_sign)]
+    #[kani::stub(super::spec::spec_sign, uf_sign)]
+    #[kani::stub(super::count, uf_count)]
+    #[kani::stub(super::spec::spec_count, uf_count)]
+    #[kani::stub(super::precision, uf_precision)]
+    #[kani::stub(super::spec::spec_precision, uf_precision)]
+    #[kani::stub(super::type_, uf_type)]
+    #[kani::stub(super::spec::spec_type, uf_type)]
+    ob_format_spec, format_spec, spec_format_spec, same, ascii, A_UF);
 contract_eq!(
-    #[kani::unwind(9)]
-    #[kani::stub(super::align, spec_align)]
-    #[kani::stub(super::sign, spec_sign)]
-    #[kani::stub(super::count, spec_count)]
-    #[kani::stub(super::precision, spec_precision)]
-    #[kani::stub(super::type_, spec_type)]
-    ob_format_spec_wide_fill, format_spec, spec_format_spec, same, wide0, W_SPEC);
+    #[kani::stub(super::align, uf_align)]
+    #[kani::stub(super::spec::spec_align, uf_align)]
+    #[kani::stub(super::sign, uf_sign)]
+    #[kani::stub(super::spec::spec_sign, uf_sign)]
+    #[kani::stub(super::count, uf_count)]
+    #[kani::stub(super::spec::spec_count, uf_count)]
+    #[kani::stub(super::precision, uf_precision)]
+    #[kani::stub(super::spec::spec_precision, uf_precision)]
+    #[kani::stub(super::type_, uf_type)]
+    #[kani::stub(super::spec::spec_type, uf_type)]
+    #[kani::unwind(12)]
+    ob_format_spec_wide_fill, format_spec, spec_format_spec, same, wide0, W_UF);
 contract_eq!(
-    #[kani::unwind(9)]
-    #[kani::stub(super::argument, spec_argument)]
-    #[kani::stub(super::format_spec, spec_format_spec)]
-    #[kani::stub(super::whitespaces, spec_ws_opt)]
-    ob_format, format, spec_format, same, ascii, A_FMT);
+    #[kani::unwind(7)]
+    #[kani::stub(super::argument, uf_argument)]
+    #[kani::stub(super::spec::spec_argument, uf_argument)]
+    #[kani::stub(super::format_spec, uf_format_spec)]
+    #[kani::stub(super::spec::spec_format_spec, uf_format_spec)]
+    #[kani::stub(super::whitespaces, uf_whitespaces)]
+    #[kani::stub(super::spec::spec_ws, uf_ws_plain)]
+    ob_format, format, spec_format, same, ascii, A_UF);
 contract_eq!(
-    #[kani::unwind(9)]
-    #[kani::stub(super::format, spec_format)]
-    ob_maybe_format, maybe_format, spec_maybe_format, same, ascii, A_FMT);
+    #[kani::unwind(7)]
+    #[kani::stub(super::format, uf_format)]
+    #[kani::stub(super::spec::spec_format, uf_format)]
+    ob_maybe_format, maybe_format, spec_maybe_format, same, ascii, A_UF);
 
 // ---- level 4 ---------------------------------------------------------------------------------------
-#[kani::proof]
-#[kani::unwind(9)]
-#[kani::stub(unicode_xid::tables::derived_property::XID_Start, xid_start_stub)]
-#[kani::stub(unicode_xid::tables::derived_property::XID_Continue, xid_continue_stub)]
-#[kani::stub(super::maybe_format, spec_maybe_format)]
-#[kani::stub(super::text, spec_text)]
-fn ob_format_string() {
-    init_xid();
-    let mut buf8 = [0u8; 8];
-    let s = ascii(&mut buf8, A_FS);
-    report(s);
-    let r = format_string(s);
-    let e = spec_format_string(s);
-    kani::cover!(r.is_some(), "accepting input reachable");
-    kani::cover!(r.is_none(), "rejecting input reachable");
-    kani::cover!(r.as_ref().map(|f| f.formats.len() >= 2).unwrap_or(false), "two placeholders reachable");
-    assert!(r == e, "real == spec");
-}
+// `format_string` (iter::repeat().scan().flatten().collect() into a Vec) exhausts 20 GB / 25 min under CBMC even for
+// 3-byte inputs with abstract callees: it is NOT under a Kani obligation. Its stand-in is the native bounded-exhaustive
+// comparison `oracle sweep` (labelled bounded in the evidence).
 
 // ---- C18: totality of the arithmetic on long digit strings --------------------------------------------
 #[kani::proof]
